@@ -838,3 +838,13 @@ def ParseTable.run (cfg : Cfg) (p : ParseTable) (j : Json) : Except String TVal 
   | _ => .error "not an object"
 
 end Verif.Model.Schema
+
+namespace Verif.Model.Schema
+
+/-- `complete_enum_value` (completions/send_messages.py): the allowed values that start with what was
+typed, in their order; case-insensitive unless asked otherwise (ASCII model of `str.lower`) -/
+def completeEnum (current : String) (allowed : List String) (caseSensitive : Bool) : List String :=
+  if caseSensitive then allowed.filter (fun v => v.startsWith current)
+  else allowed.filter (fun v => v.toLower.startsWith current.toLower)
+
+end Verif.Model.Schema
